@@ -1,7 +1,7 @@
 ENGINES = [
     {"name": "crashmc", "path": "mc/crashmc.py", "serves_properties": ["C07"],
      "kind_free_text": "crash-point enumeration over the syscall log (strace) of the real writer: all byte prefixes of the write sequence, recovery and restart executed on the real library"},
-    {"name": "gridmc", "path": "mc/checks", "serves_properties": ["C02", "C03", "C11", "C12", "C18", "C20"],
+    {"name": "gridmc", "path": "mc/checks", "serves_properties": ["C02", "C03", "C10", "C11", "C12", "C18", "C20"],
      "kind_free_text": "exhaustive enumeration of finite option lattices / member lists crossed with small branch-covering data alphabets, each point compared with an oracle independent of REBOUND"},
     {"name": "histmc", "path": "mc/histmc.py", "serves_properties": ["C05", "C06", "C08", "C09", "C13", "C14", "C15", "C17"],
      "kind_free_text": "explicit-state breadth-first exploration of operation histories on the real library object (state = history, canonical digest de-duplication, reference-model oracle on every transition)"},
@@ -10,6 +10,13 @@ NOTES = ("All checks explore the real implementation rebuilt from /repo's workin
          "so traces_validated_against_impl equals the number of executed transitions. known_findings.json lists repaired defects (fixed:) and recorded ones.")
 NOT_APPLICABLE = {}
 CHECKS = {
+    "C10": {
+        "engine": "gridmc", "category": "exploration",
+        "technique": "exhaustive enumeration of the JANUS option lattice x grid-representable initial conditions x step counts x directions with a bit-for-bit oracle, and of the symmetric fixed-step schemes with a rounding-level oracle",
+        "text": "JANUS: order{2,4,6,8,10} x scale{1e-16,1e-12,1e-8} x N{2,3,4} x n{1,2,5,50; thorough 500} x 4 initial conditions snapped to (and verified as) fixed points of to_double(to_int(.)) x first direction x {plain, user-set recalculation flag, start from a state reached after modifying a particle}: "
+                "n steps, dt -> -dt, n steps must restore every bit of x..vz and the integer state p_int. Symmetric schemes (WHFast x 4 coordinate systems x safe/unsafe, 10 uncorrected SABA types, 18 unprocessed EOS splittings, LEAPFROG, SEI free / self-gravitating / shearing box) on {S3, S4G, a hyperbolic flyby}: round trip error <= 2000 u n scale (observed maximum 79).",
+        "note": "Non-chaotic few-body systems only; in the shearing box particles are kept away from the faces (the truncated image sum is discontinuous there).",
+    },
     "C03": {
         "engine": "gridmc", "category": "exploration",
         "technique": "exhaustive enumeration of a branch-covering lattice of two-body inputs (e, a, GM, phase, dt/P, sign) through the exported Kepler solver and through one step of every WH-type integrator, against a 40-digit universal-variable propagation with closed-form Stumpff functions; every call under an alarm",
